@@ -3,7 +3,7 @@ From Coq Require Import String List Bool Arith NArith.
 Local Open Scope string_scope.
 Local Open Scope list_scope.
 Import ListNotations.
-Require Import PyStr Matcher Ast Compiler CompilerSpec Json.
+Require Import PyStr Matcher Ast Compiler CompilerSpec Json Dialects KeywordFacts.
 
 (* one chain over background steps then own steps, starting from Unknown: given/when/then/"*"
    give Context/Action/Outcome/Unknown, and/but repeat the type before them *)
@@ -31,6 +31,12 @@ Print Assumptions C10_outline_eq_plain.
 Theorem C10_definite : forall t : ptype, In (Json.ptype_str t) [s2l "Unknown"; s2l "Context"; s2l "Action"; s2l "Outcome"].
 Proof. intros t. destruct t; simpl; auto. Qed.
 Print Assumptions C10_definite.
+
+(* in every dialect an and/but keyword is a conjunction (listed once among and ++ but) unless it is also a
+   given/when/then keyword, as "* " is: so it takes the type of the step before it, never Unknown by accident *)
+Theorem C10_conjunction_keywords : forallb conjunctions_ok dialects = true.
+Proof. exact dialects_conjunctions_ok. Qed.
+Print Assumptions C10_conjunction_keywords.
 
 Example C10_example :
   fst (carry PUnknown [Conjunction; Context; Conjunction; Unknown; Conjunction; Outcome; Conjunction; Action])
